@@ -7,10 +7,11 @@ import SonicSpec.Driver.Mem
 import SonicSpec.Driver.IO
 import SonicSpec.Driver.Json
 import SonicSpec.Driver.Opts
+import SonicSpec.Driver.Conc
 namespace SonicSpec.Driver
 
 def handlers : List (List String → Option String) :=
-  [ Str.handle, Num.handle, Loader.handle, Own.handle, Mem.handle, IO.handle, Json.handle, Opts.handle ]
+  [ Str.handle, Num.handle, Loader.handle, Own.handle, Mem.handle, IO.handle, Json.handle, Opts.handle, Conc.handle ]
 
 /-- one protocol line in (already split at tabs), one result line out -/
 def dispatch (parts : List String) : String :=
